@@ -121,6 +121,23 @@ def _filter(geom, kind):
         return df.Field(geom.mesh, nvdim=1, value=np.where(keep, tiny, 0.0)[..., None]), ~keep
     if kind == "same":
         return df.Field(geom.mesh, nvdim=1, value=vals[..., None]), ~keep
+    if kind == "other-same-count":
+        # another grid with the SAME number of cells: twice as fine along one axis, half as fine along the other (which
+        # must have an even count).  The zero pattern depends on the refined axis only, so the filter is still uniform over
+        # every cell of the plotted mesh and "the filter value of a cell" has one reading.
+        ax = 0 if n[1] % 2 == 0 else (1 if n[0] % 2 == 0 else None)
+        if ax is not None and n[1 - ax] >= 2:
+            line = np.array([(3 * i + 1) % 4 != 0 for i in range(n[ax])])
+            if line.all() or not line.any():
+                line[-1] = not line[-1]
+            lv = np.where(line, 1.0 + np.arange(n[ax]), 0.0)
+            nf = [0, 0]
+            nf[ax], nf[1 - ax] = 2 * n[ax], n[1 - ax] // 2
+            fine = np.repeat(lv, 2)
+            arr = fine[:, None] * np.ones(nf[1])[None, :] if ax == 0 else np.ones(nf[0])[:, None] * fine[None, :]
+            zero = ~(line[:, None] & np.ones(n, bool)) if ax == 0 else ~(np.ones(n, bool) & line[None, :])
+            fm = df.Mesh(region=geom.mesh.region, n=tuple(nf))
+            return df.Field(fm, nvdim=1, value=arr[..., None]), zero
     return df.Field(geom.other_mesh(), nvdim=1, value=_block(vals)[..., None]), ~keep
 
 
@@ -446,7 +463,7 @@ def unit_scalar(ctx):
     gname = ctx.choose("geom", GEOM_QUICK if quick else list(GEOMS))
     vkind = ctx.choose("valid", ["all", "coded"])
     mult = ctx.choose("multiplier", MULTS[:4] if quick else MULTS)
-    fkind = ctx.choose("filter", [None, "same", "other", "tiny"])
+    fkind = ctx.choose("filter", [None, "same", "other", "tiny", "other-same-count"])
     kind = ctx.choose("kind", ["scalar", "contour"])
     dt = ctx.choose("value-type", ["float", "int", "bool"] if fkind in (None, "same") else ["float"])
     geom = Geom(gname)
